@@ -1,5 +1,4 @@
 import HawkModel.Utf8
-import HawkModel.Tio
 /-!
 # Lemmas for C15 (codec for the checked build's table; conversion loops; tio staging)
 
@@ -172,156 +171,7 @@ theorem dec_prefix (c : Nat) (h : c < 65536) (p q : List UInt8) (hpq : p ++ q = 
   · simpa using (List.length_pos_iff.mpr hp)
   · rw [← encode_eq_spec c h]; omega
 
-/-! ### the conversion loop on well-formed streams -/
-
-def BMP (cs : List Nat) : Prop := ∀ c ∈ cs, c < 65536
-
-theorem encodeAll_cons (c : Nat) (cs : List Nat) : encodeAll T (c :: cs) = encode T c ++ encodeAll T cs := by
-  simp [encodeAll]
-
-theorem encodeAll_nil : encodeAll T [] = [] := rfl
-
-theorem encodeAll_append (a b : List Nat) : encodeAll T (a ++ b) = encodeAll T a ++ encodeAll T b := by
-  simp [encodeAll]
-
-theorem convUpto_nil (tbl : List Utf8Row) (stopper wcap : Nat) : convUpto tbl stopper wcap [] = .ok (0, 0, []) := by
-  rw [convUpto]; simp
-
-theorem convUpto_step (tbl : List Utf8Row) (stopper wcap : Nat) (s : List UInt8) (n w : Nat) (hs : s ≠ [])
-    (hd : utf8ToUc tbl s = .ok (n, w)) :
-    convUpto tbl stopper wcap s =
-      if n = 0 then .ok (-1, 0, [])
-      else if n > s.length then .ok (-3, 0, [])
-      else if wcap = 0 then .ok (0, 0, [])
-      else if w = stopper then .ok (0, n, [w])
-      else
-        match convUpto tbl stopper (wcap - 1) (s.drop n) with
-        | .error f => .error f
-        | .ok (x, m, out) => .ok (x, n + m, w :: out) := by
-  rw [convUpto, dif_neg hs]
-  simp only [hd, dite_eq_ite]
-  rfl
-
-/-- what `convUpto` does on a prefix `m` of a well-formed stream -/
-theorem convUpto_wf (stopper : Nat) : ∀ (cs : List Nat), BMP cs → ∀ (m rest : List UInt8) (wcap : Nat),
-    m ++ rest = encodeAll T cs →
-    ∃ x mlen out cs', convUpto T stopper wcap m = .ok (x, mlen, out) ∧ cs = out ++ cs' ∧ mlen ≤ m.length ∧
-      m.drop mlen ++ rest = encodeAll T cs' ∧ out.length ≤ wcap ∧ (x = 0 ∨ x = -3) ∧
-      (x = -3 → ∃ c cs'', cs' = c :: cs'' ∧ m.drop mlen ≠ [] ∧ (m.drop mlen).length < (encode T c).length) ∧
-      (x = 0 → out = [] → m = [] ∨ wcap = 0) := by
-  intro cs
-  induction cs with
-  | nil =>
-    intro _ m rest wcap h
-    simp [encodeAll_nil] at h
-    obtain ⟨rfl, rfl⟩ := h
-    exact ⟨0, 0, [], [], convUpto_nil .., by simp [encodeAll_nil]⟩
-  | cons c cs1 ih =>
-    intro hb m rest wcap h
-    have hc : c < 65536 := hb c (by simp)
-    have hb1 : BMP cs1 := fun x hx => hb x (by simp [hx])
-    rw [encodeAll_cons] at h
-    by_cases hm : m = []
-    · subst hm
-      refine ⟨0, 0, [], c :: cs1, convUpto_nil .., ?_⟩
-      simp at h; simp [encodeAll_cons, h]
-    · have hel := enc_len c hc
-      have hn0 : (encode T c).length ≠ 0 := by omega
-      by_cases hlt : m.length < (encode T c).length
-      · -- m is a proper prefix of the first character
-        obtain ⟨q, hq⟩ : ∃ q, m ++ q = encode T c := by
-          have := List.append_eq_append_iff.mp h
-          rcases this with ⟨a, h1, h2⟩ | ⟨a, h1, h2⟩
-          · exact ⟨a, h1.symm⟩
-          · exfalso
-            have : m.length = (encode T c).length + a.length := by rw [h1]; simp
-            omega
-        have hqne : q ≠ [] := by
-          intro hq0; subst hq0; simp at hq; rw [hq] at hlt; omega
-        have hd := dec_prefix c hc m q hq hm hqne
-        refine ⟨-3, 0, [], c :: cs1, ?_, ?_⟩
-        · rw [convUpto_step _ _ _ _ _ _ hm hd, if_neg hn0, if_pos hlt]
-        · simp [encodeAll_cons, h, hm, hlt]
-      · -- the first character is complete in m
-        obtain ⟨m1, hm1, hrest⟩ : ∃ m1, m = encode T c ++ m1 ∧ m1 ++ rest = encodeAll T cs1 := by
-          have := List.append_eq_append_iff.mp h
-          rcases this with ⟨a, h1, h2⟩ | ⟨a, h1, h2⟩
-          · have : (encode T c).length = m.length + a.length := by rw [h1]; simp
-            have ha : a = [] := List.eq_nil_of_length_eq_zero (by omega)
-            subst ha
-            exact ⟨[], by simpa using h1.symm, by simpa using h2⟩
-          · exact ⟨a, h1, h2.symm⟩
-        have hd := dec_enc_append c hc m1
-        rw [← hm1] at hd
-        have hL : (encode T c).length ≤ m.length := by omega
-        have hdropm : m.drop (encode T c).length = m1 := by rw [hm1]; simp
-        by_cases hw : wcap = 0
-        · refine ⟨0, 0, [], c :: cs1, ?_, ?_⟩
-          · rw [convUpto_step _ _ _ _ _ _ hm hd, if_neg hn0, if_neg hlt, if_pos hw]
-          · simp [encodeAll_cons, h, hw]
-        · by_cases hst : c = stopper
-          · refine ⟨0, (encode T c).length, [c], cs1, ?_, ?_⟩
-            · rw [convUpto_step _ _ _ _ _ _ hm hd, if_neg hn0, if_neg hlt, if_neg hw, if_pos hst]
-            · refine ⟨rfl, hL, ?_, by simp; omega, Or.inl rfl, by simp, by simp⟩
-              rw [hdropm]; exact hrest
-          · obtain ⟨x, mlen, out, cs', hconv, hcs, hml, hdrop, hout, hx, hx3, hx0⟩ := ih hb1 m1 rest (wcap - 1) hrest
-            have hdrop2 : m.drop ((encode T c).length + mlen) = m1.drop mlen := by
-              rw [← List.drop_drop, hdropm]
-            have hol : (c :: out).length ≤ wcap := by
-              have : 0 < wcap := Nat.pos_of_ne_zero hw
-              simp only [List.length_cons]
-              exact Nat.succ_le_of_lt (Nat.lt_of_le_of_lt hout (Nat.sub_lt this (by decide)))
-            refine ⟨x, (encode T c).length + mlen, c :: out, cs', ?_, ?_⟩
-            · rw [convUpto_step _ _ _ _ _ _ hm hd, if_neg hn0, if_neg hlt, if_neg hw, if_neg hst, hdropm, hconv]
-            · refine ⟨by simp [hcs], ?_, ?_, hol, hx, ?_, by simp⟩
-              · rw [hm1]; simp; omega
-              · rw [hdrop2]; exact hdrop
-              · intro h3
-                obtain ⟨c', cs'', h1, h2, h3'⟩ := hx3 h3
-                exact ⟨c', cs'', h1, by rw [hdrop2]; exact h2, by rw [hdrop2]; exact h3'⟩
-
-/-! ### the conversion loop on arbitrary bytes -/
-
-/-- `convUpto` on arbitrary bytes and for every table: never a fault, stays within both buffers -/
-theorem convUpto_total (tbl : List Utf8Row) (stopper : Nat) :
-    ∀ (k : Nat) (s : List UInt8) (wcap : Nat), s.length ≤ k →
-      ∃ x mlen out, convUpto tbl stopper wcap s = .ok (x, mlen, out) ∧ out.length ≤ wcap ∧ out.length ≤ mlen ∧
-        mlen ≤ s.length ∧ (x = 0 ∨ x = -1 ∨ x = -3) ∧ (x ≠ 0 → mlen < s.length) ∧
-        (x = 0 → out = [] → s = [] ∨ wcap = 0) := by
-  intro k
-  induction k with
-  | zero =>
-    intro s wcap h
-    have : s = [] := List.eq_nil_of_length_eq_zero (by omega)
-    subst this
-    exact ⟨0, 0, [], convUpto_nil .., by simp, by simp, by simp, by simp, by simp, by simp⟩
-  | succ k ih =>
-    intro s wcap h
-    by_cases hs : s = []
-    · subst hs
-      exact ⟨0, 0, [], convUpto_nil .., by simp, by simp, by simp, by simp, by simp, by simp⟩
-    · have hpos : 0 < s.length := List.length_pos_iff.mpr hs
-      obtain ⟨⟨n, w⟩, hd⟩ := utf8ToUc_ok tbl s hs
-      rw [convUpto_step tbl stopper wcap s n w hs hd]
-      by_cases h0 : n = 0
-      · rw [if_pos h0]; exact ⟨-1, 0, [], rfl, by simp, by simp, by simp, by simp, by simp; omega, by simp⟩
-      · rw [if_neg h0]
-        by_cases h1 : n > s.length
-        · rw [if_pos h1]; exact ⟨-3, 0, [], rfl, by simp, by simp, by simp, by simp, by simp; omega, by simp⟩
-        · rw [if_neg h1]
-          by_cases hw : wcap = 0
-          · rw [if_pos hw]; exact ⟨0, 0, [], rfl, by simp, by simp, by simp, by simp, by simp, by simp [hw]⟩
-          · rw [if_neg hw]
-            by_cases hst : w = stopper
-            · rw [if_pos hst]
-              exact ⟨0, n, [w], rfl, by simp; omega, by simp; omega, by omega, by simp, by simp, by simp⟩
-            · rw [if_neg hst]
-              obtain ⟨x, m, out, hc, ho1, ho2, hm, hx, hxn, hx0⟩ := ih (s.drop n) (wcap - 1) (by simp; omega)
-              rw [hc]
-              refine ⟨x, n + m, w :: out, rfl, by simp; omega, by simp; omega, by simp at hm; omega, hx, ?_, by simp⟩
-              intro hne; have := hxn hne; simp at this; omega
-
-/-! ### the encoder into a sized buffer; characters to bytes -/
+/-! ### the encoder into a sized buffer -/
 
 theorem encTail_len : ∀ (k uc : Nat) (acc : List UInt8), (encTail k uc acc).2.length = k + acc.length := by
   intro k
@@ -354,37 +204,6 @@ theorem ucToUtf8_size (c : Nat) (h : c < 65536) (size : Nat) :
     · exact key _ (getSlot_2 c h1 h2) (by decide) (by decide)
     · exact key _ (getSlot_3 c h2 h) (by decide) (by decide)
 
-/-- `convUtoB` on BMP characters: a prefix is converted exactly; it stops only when the next character does not fit -/
-theorem convUtoB_bmp : ∀ (ws : List Nat), BMP ws → ∀ (rem : Nat),
-    ∃ x k bs, convUtoB T ws rem = (x, k, bs) ∧ k ≤ ws.length ∧ bs = encodeAll T (ws.take k) ∧ bs.length ≤ rem ∧
-      ((x = 0 ∧ k = ws.length) ∨
-       (x = -2 ∧ ∃ c rest, ws.drop k = c :: rest ∧ rem - bs.length < (encode T c).length)) := by
-  intro ws
-  induction ws with
-  | nil => intro _ rem; exact ⟨0, 0, [], rfl, by simp, by simp [encodeAll_nil], by simp, Or.inl ⟨rfl, rfl⟩⟩
-  | cons c cs ih =>
-    intro hb rem
-    have hc : c < 65536 := hb c (by simp)
-    have hb1 : BMP cs := fun x hx => hb x (by simp [hx])
-    have hel := enc_len c hc
-    rw [convUtoB]
-    by_cases hr : rem = 0
-    · rw [if_pos hr]
-      exact ⟨-2, 0, [], rfl, by simp, by simp [encodeAll_nil], by simp, Or.inr ⟨rfl, c, cs, rfl, by simp; omega⟩⟩
-    · rw [if_neg hr]
-      simp only [ucToUtf8_size c hc rem]
-      by_cases hfit : (encode T c).length ≤ rem
-      · simp only [if_pos hfit]
-        rw [if_neg (by omega), if_neg (by omega)]
-        obtain ⟨x, k, bs, hcv, hk, hbs, hlen, hx⟩ := ih hb1 (rem - (encode T c).length)
-        rw [hcv]
-        refine ⟨x, k + 1, encode T c ++ bs, rfl, by simp; omega, by simp [encodeAll_cons, hbs], by simp; omega, ?_⟩
-        rcases hx with ⟨rfl, rfl⟩ | ⟨rfl, c2, rest, hd, hlt⟩
-        · exact Or.inl ⟨rfl, by simp⟩
-        · exact Or.inr ⟨rfl, c2, rest, by simpa using hd, by simp; omega⟩
-      · simp only [if_neg hfit]
-        rw [if_neg (by omega), if_pos (by omega)]
-        exact ⟨-2, 0, [], rfl, by simp, by simp [encodeAll_nil], by simp, Or.inr ⟨rfl, c, cs, rfl, by simp; omega⟩⟩
 
 /-! ### the decoder on arbitrary bytes, by class of the lead byte; shortest forms re-encode to themselves -/
 set_option maxRecDepth 8192 in
@@ -653,40 +472,5 @@ theorem encode_decode_T (s : List UInt8) (n w : Nat) (h : utf8ToUc T s = .ok (n,
     · rw [dec_class_bad b0 rest (Or.inr c)] at h
       simp only [Except.ok.injEq, Prod.mk.injEq] at h
       exact absurd h.1.symm hn0
-
-/-! ### whole-string decoding -/
-
-theorem convBtoU_nil (tbl : List Utf8Row) (all : Bool) (wcap : Nat) : convBtoU tbl all wcap [] = .ok (0, 0, []) := by
-  rw [convBtoU]; simp
-
-theorem convBtoU_step_ok (tbl : List Utf8Row) (all : Bool) (wcap : Nat) (s : List UInt8) (n w : Nat) (hs : s ≠ [])
-    (hw : wcap ≠ 0) (hd : utf8ToUc tbl s = .ok (n, w)) (hn0 : n ≠ 0) (hn : n ≤ s.length) :
-    convBtoU tbl all wcap s =
-      match convBtoU tbl all (wcap - 1) (s.drop n) with
-      | .error f => .error f
-      | .ok (x, m, out) => .ok (x, n + m, w :: out) := by
-  rw [convBtoU, dif_neg hs, if_neg hw]
-  simp only [hd]
-  rw [if_neg (by omega)]
-  rfl
-
-/-- decoding a whole well-formed BMP string with enough room gives back the characters and consumes everything -/
-theorem convBtoU_wf (all : Bool) : ∀ (cs : List Nat), BMP cs → ∀ (wcap : Nat), cs.length ≤ wcap →
-    convBtoU T all wcap (encodeAll T cs) = .ok (0, (encodeAll T cs).length, cs) := by
-  intro cs
-  induction cs with
-  | nil => intro _ wcap _; simp [encodeAll_nil, convBtoU_nil]
-  | cons c cs ih =>
-    intro hb wcap hw
-    have hc : c < 65536 := hb c (by simp)
-    have hb1 : BMP cs := fun x hx => hb x (by simp [hx])
-    have hel := enc_len c hc
-    have hw' : cs.length + 1 ≤ wcap := by simpa using hw
-    have hne : encode T c ++ encodeAll T cs ≠ [] := by simp [enc_ne_nil c hc]
-    rw [encodeAll_cons]
-    rw [convBtoU_step_ok T all wcap _ _ _ hne (by omega) (dec_enc_append c hc _) (by omega) (by simp)]
-    simp only [List.drop_left]
-    rw [ih hb1 (wcap - 1) (by omega)]
-    simp
 
 end Hawk.Utf8
